@@ -30,6 +30,13 @@ CLAIMED = {
     "C07": ("proof",
             "all_effective_frag/token, runActions_mode_stack, mode_stack_discipline, accum_prefix over the model of PushRune/simplelexer for all tables satisfying wfModes and all inputs; wfModes and the model are tied to every emitted lexer; expected action pairs (mode actions in written order, terminal last) are checked by the table validator.",
             TB, "Lean 4 invariants over the lexer runtime model + validators + correspondence", "§7 C07"),
+    "C08": ("proof",
+            "bisimNG_sound: when Lex.bisimNG accepts (rules, emitted table) the table run equals the shortest-match spec for rules containing *?/+? on every string; ng_shape_star/plus: for prefix · body*? · terminator the token ends at the first occurrence of the terminator. Runs on every table emitted for random specs of the stated shape; compiled lexers vs model and reference lexer. The leak of the non-greedy mark onto a greedy rule's accepting state is known finding K2 (the validator names it).",
+            TB + " Partial: K2.", "Lean 4 proof-carrying validation (non-greedy bisimulation checker) + correspondence", "§7 C08"),
+    "C09": ("proof",
+            "Over the model of parse/_recover for arbitrary tables: recover_result, recover_progress, recoveries_bounded, recover_terminates, no_silent_accept_partial, error_tracked, error_delivered_partial; tables_decide/parse_no_panic/tables_terminate for validated tables on error-free runs. The model is compared with compiled generated parsers on all token strings up to a length including lexer ERROR tokens, under a step budget (a hang is an observation).",
+            TB + " Partial: soundness of runs with recovery and the correct-prefix property of the first Error are not yet theorems (stated _partial).",
+            "Lean 4 theorems over the model of the generated parse/_recover + correspondence with compiled parsers", "§7 C09"),
     "C10": ("proof",
             "Table codec theorems for all row lists (roundtrip, find_correct, shared_only_if_equal, indices_in_range, rowKey_injective), lexer row codec, decode_wf/table_faithful for mode tables, LR.check for parser tables; ties: table family vs newTable/AddRow/Array, validators on every emitted table.",
             TB, "Lean 4 theorems on the table codec + proof-carrying validation of emitted tables", "§7 C10"),
